@@ -64,7 +64,17 @@ func genSorterStress(r *RNG) *Trace {
 		typ = "GSAP"
 	}
 	n := r.Range(120, 1500)
-	fam := r.pickStr("powers", "powers", "listtwice", "listtwice", "nested", "tandem")
+	fam := r.pickStr("powers", "powers", "listtwice", "listtwice", "nested", "tandem", "unevenruns", "prefixedrecords")
+	if fam == "unevenruns" {
+		n = r.Range(600, 4000)
+	}
+	if fam == "prefixedrecords" {
+		n = r.Range(2000, 12000)
+		if r.Chance(0.12) {
+			n = r.Range(30000, 80000) // where a wrong order shows as a wrong expansion rather than a panic
+			typ = "OSAP"
+		}
+	}
 	spec := ParserSpec{Type: typ, BufferSize: n + r.Intn(64), BlockSize: r.Pick(0, 1<<16, n, n/2+1, 64)}
 	spec.WindowSize = spec.BufferSize + r.Intn(8)
 	spec.ShrinkSize = r.Intn(spec.BufferSize)
